@@ -8,6 +8,7 @@ Distances: an arbitrary linear order `D`; `dq i` is "the index's distance betwee
 vector of point i" (metric or quantised form — whatever `vecStore.DistanceFromFloat(query)` computes; NaN is
 excluded by `D` being a linear order); `hyb d` stands for `-1 * d * weight`.
 -/
+import Mathlib.Data.Nat.Basic
 import SemaModel.C03.Lemmas
 namespace Sema.C03
 open Sema.C10
@@ -311,5 +312,71 @@ theorem C03_exact_connected (R : Nat) (g : Graph) (L : List Id) (hWF : WF R g L)
   · show List.map _ (List.map _ ((st.search.items.filter _).take limit)) = _
     rw [List.map_map, ← List.map_take]
     rfl
+
+
+/-- C03 (c): a collection built by inserts only (every change of every batch carries a vector, no point id
+occurs twice, ids differ from the entry node's; rejected batches are skipped) that ends with at most
+`min(degreeBound, searchSize − 1)` vectors is searched exactly without a filter: during the build every new
+node receives a back-edge from an existing node and no prune is ever triggered, so every node stays reachable
+from the entry node (`run_inserts_BInv`), and the search window holds the whole collection
+(`C03_exact_connected`).  The build search size plays no role; the insert workers are sequential (Model). -/
+theorem C03_exact_small (cfg : Cfg) (hR : 1 ≤ cfg.degreeBound) (steps : List (Step D))
+    (hall : ∀ st ∈ steps, ∀ c ∈ st.batch, c.hasVector = true)
+    (hnd : ((steps.flatMap (·.batch)).map (·.id)).Nodup)
+    (hne : ∀ st ∈ steps, ∀ c ∈ st.batch, c.id ≠ entry)
+    (dq : Id → D) (hyb : D → H) (limit searchSize : Nat) (hk : limit ≤ searchSize)
+    (hsmall : (run cfg steps (Graph.init, [])).2.length ≤ cfg.degreeBound)
+    (hroom : (run cfg steps (Graph.init, [])).2.length < searchSize) :
+    ∃ (res : List (Hit D H)) (E : List Id),
+      search (run cfg steps (Graph.init, [])).1.view dq hyb limit searchSize none
+        ((run cfg steps (Graph.init, [])).1.vecs.length + 1) = .ok res ∧
+      E.Perm (run cfg steps (Graph.init, [])).2 ∧ E.Pairwise (fun a b => dq a ≤ dq b) ∧
+      res.map (·.id) = E.take limit := by
+  have hWF := C10_history_aux cfg hR steps
+  have hB := run_inserts_BInv cfg hR steps Graph.init [] (by
+      unfold WF wfB Graph.init Graph.keys; simp [nodupB, entry]) (BInv_init _) hall hnd
+    (fun st hst c hc hm => hne st hst c hc (by simpa [Graph.init, Graph.keys] using hm)) hsmall
+  exact C03_exact_connected cfg.degreeBound _ _ hWF hB.conn dq hyb limit searchSize hk hroom
+
+
+/-! ### non-vacuity: the hypotheses of the theorems hold on concrete non-trivial states -/
+
+/-- build distances of the examples: |a − b| on the ids, alpha = 2 -/
+def exDists : Dists Nat :=
+  { q := fun a b => if a ≤ b then b - a else a - b, p := fun a b => if a ≤ b then b - a else a - b,
+    ap := fun a b => 2 * (if a ≤ b then b - a else a - b) }
+
+/-- a history with inserts, a vector update and a delete; degree bound 2, build search size 3 -/
+def exSteps : List (Step Nat) :=
+  [⟨exDists, [], [⟨2, true⟩, ⟨3, true⟩]⟩, ⟨exDists, [], [⟨4, true⟩, ⟨5, true⟩, ⟨6, true⟩, ⟨7, true⟩]⟩,
+   ⟨exDists, [], [⟨3, true⟩, ⟨4, false⟩]⟩]
+
+def exState : Graph × List Id := run ⟨2, 3⟩ exSteps (Graph.init, [])
+
+/-- query distances of the examples: |i − 4|, hybrid = the distance itself -/
+def exDq : Id → Nat := fun i => if i ≤ 4 then 4 - i else i - 4
+
+/-- C03_safe / C03_exact_filter: a well-formed 6-node graph after a mixed history, a filter of 3 members
+(one of them without a node) within search size 3; the model returns the two nearest members -/
+example : WF 2 exState.1 exState.2 ∧ exState.2 = [2, 3, 5, 6, 7] ∧ (2 : Nat) ≤ 3 ∧ [3, 4, 7].length ≤ 3 ∧
+    [3, 4, 7].Nodup ∧ entry ∉ [3, 4, 7] ∧
+    search (H := Nat) exState.1.view exDq id 2 3 (some [3, 4, 7]) (exState.1.vecs.length + 1) =
+      .ok [⟨3, 1, 1⟩, ⟨7, 3, 3⟩] := by decide
+
+/-- C03_safe without a filter on the same graph — the approximate regime: after the delete of point 4 under
+degree bound 2 the nodes 5, 6, 7 only point at each other (they keep inbound edges, so nothing is rescued) and
+the answer holds the two reachable points only; every safety clause holds, exactness is not claimed here -/
+example : search (H := Nat) exState.1.view exDq id 3 3 none (exState.1.vecs.length + 1) =
+    .ok [⟨3, 1, 1⟩, ⟨2, 2, 2⟩] := by decide
+
+/-- C03_exact_small: an insert-only history of 3 points with degree bound 3, searched with search size 4 -/
+def exInsertOnly : List (Step Nat) :=
+  [⟨exDists, [], [⟨2, true⟩]⟩, ⟨exDists, [], [⟨7, true⟩, ⟨5, true⟩]⟩]
+
+example : (∀ st ∈ exInsertOnly, ∀ c ∈ st.batch, c.hasVector = true) ∧
+    ((exInsertOnly.flatMap (·.batch)).map (·.id)).Nodup ∧ (∀ st ∈ exInsertOnly, ∀ c ∈ st.batch, c.id ≠ entry) ∧
+    (run ⟨3, 2⟩ exInsertOnly (Graph.init, [])).2 = [2, 7, 5] ∧
+    search (H := Nat) (run ⟨3, 2⟩ exInsertOnly (Graph.init, [])).1.view exDq id 2 4 none 5 = .ok [⟨5, 1, 1⟩, ⟨2, 2, 2⟩] := by
+  decide
 
 end Sema.C03
